@@ -12,15 +12,16 @@ for d in sorted(glob.glob('/verif/seeded/*/')):
     files = ', '.join(os.path.basename(f) for f in (m.get('files_changed') or []))
     cb = m.get('caught_by') or []
     first_missed = any('MISSED' in c for c in cb)
-    missed += first_missed
+    is_open = str(m.get('status', '')).startswith('open miss')
+    missed += first_missed and not is_open
     mechs = '; '.join(re.sub(r'\s+', ' ', c.split(' (')[0]).replace('|', '/') for c in cb)
     if str(m.get('status', '')).startswith('neutralised'):
         mechs += ' -- ' + m['status'].split(':')[0]
-    rows.append('| %s | %s | %s | %s | %s |' % (name, files, summ, mechs, 'yes' if first_missed else 'no'))
+    rows.append('| %s | %s | %s | %s | %s |' % (name, files, summ, mechs, 'STILL MISSED (open)' if is_open else ('yes' if first_missed else 'no')))
 tab = ['| id | file | change | caught by (violation mechanism reported) | missed by the first version of the check |', '|---|---|---|---|---|'] + rows
 tab.append('')
 neutral = sum(1 for d in glob.glob('/verif/seeded/*/meta.json') if str(json.load(open(d)).get('status', '')).startswith('neutralised'))
-tab.append('%d seeded changes stored; %d of them were missed by the check as it stood when the change arrived and are caught after the strengthening described below; %d have since been made harmless by a repair of the code they touch (marked "neutralised": their own demonstration reports that the property holds with the patch applied) and are skipped by the regression run.' % (len(rows), missed, neutral))
+tab.append('%d seeded changes stored; %d of them were missed by the check as it stood when the change arrived and are caught after the strengthening described below; %d have since been made harmless by a repair of the code they touch (marked "neutralised": their own demonstration reports that the property holds with the patch applied) and are skipped by the regression run; %d (round 10) are NOT caught by the committed checks yet ("open miss").' % (len(rows), missed, neutral, sum(1 for d in glob.glob('/verif/seeded/*/meta.json') if str(json.load(open(d)).get('status', '')).startswith('open miss'))))
 s = open('/verif/DESIGN.md').read()
 a, b = '<!-- SEEDED-TABLE-BEGIN -->', '<!-- SEEDED-TABLE-END -->'
 assert a in s and b in s
